@@ -77,7 +77,7 @@ NA = {
  "C10": "the interpreter consumes Message/ParsedRecord values, i.e. every input goes through ParsedName::parse_ref, which CBMC cannot execute even on concrete input (DESIGN section 2); the updater side is the zone tree (C08)",
  "C14": "chain-of-trust validation is async + moka + ring signatures; the pure denial-range helpers were tried: nsec3_in_range is decided, but nsec_in_range (Name<Bytes>) and nsec3_label_to_hash (Vec growth + from_utf8) run out of memory, which leaves a single harness - too little to claim the property; the hostile-label panic found while trying (D10) was repaired and is demonstrated natively",
  "C16": "every clause is about async tokio tasks, sockets, pipelining and three middleware layers; the only integer kernel (EDNS size clamp) is inline in an async fn; Kani does not model concurrency",
- "C19": "differential claim between the new codec and the established one: the established parser is ParsedName::parse_ref (out of reach, DESIGN section 2); the new-API side alone was not reached in this session",
+ "C19": "differential claim between the new codec and the established one: the established parser is ParsedName::parse_ref (out of reach, DESIGN section 2); the new-API reader was tried against two independent reference readers (harness/attic/c19.rs.txt) but CBMC runs out of memory on NameBuf's 255-octet buffer even for 4 symbolic octets; a genuine disagreement between the codecs found on the way (D11, pointer into the own label run) is demonstrated natively in findings/D11",
  "C20": "every cache kernel (validity, decrement_ttl, remove_dnssec, classify_no_error) takes a Message and walks its records, i.e. goes through ParsedName::parse_ref; storage is moka and time is tokio's clock",
 }
 PENDING = "check not built yet (work in progress in this session; see DESIGN.md §4 for the planned harnesses)"
